@@ -19,31 +19,31 @@ CLAIMED = {
   note="Trusted: symx value model and validated NumPy models (mean/std/percentile/sort/corrcoef); exp/log uninterpreted. Non-linear metrics are bounded one pair lower. Outside: IEEE rounding, vectors above the bound, tie order of np.argsort (unspecified in NumPy: such paths are inconclusive).",
   ref="3 C05"),
  "C01": dict(
-  text="Bounded model checking of the real Data.__init__/get_scores/_get_score/_apply_axis: 2 (thorough 3) in-memory inputs (+ variants: an input without observations, a climatology, an input with extra/reordered coverage) whose every obs/fcst/other cell is a symbolic real-or-NaN; for 5 field sets x 9-11 axis slices z3 proves on every feasible path that each input returns exactly the cases where every input has every requested quantity, in storage order with the stored values, that an obs-less input gets the shared obs, and that another input's forecast values never matter.",
+  text="Bounded model checking of the real Data.__init__/get_scores/_get_score/_apply_axis: 2 (thorough 3) in-memory inputs (+ variants: an input without observations, a climatology, an input with extra/reordered coverage) whose every obs/fcst/other cell is a symbolic real-or-NaN; for 5 field sets x 9-11 axis slices z3 proves on every feasible path that each input returns exactly the cases where every input has every requested quantity, in storage order with the stored values, that an obs-less input gets the shared obs, and that another input's forecast values never matter. A shared harness adds a quantity derived from ensemble members: the probability is the fraction of the valid members, and a case where an input has no valid member is dropped for every input.",
   note="Trusted: symx value/array model, validated NumPy models. Inputs are in-memory Input objects (readers: C09/C10). Outside: more inputs/cells than the bound; +-inf literals (C04).",
   ref="3 C01"),
  "C02": dict(
-  text="Bounded model checking of Data._get_common_indices and the index selection in _get_score with *symbolic coordinates*: location ids, lead times (incl. NaN) and times of two inputs are arbitrary symbolic values in any order with duplicates (2+2, 2+1; thorough 3+3, 3+2); per path z3 proves the verified coordinates are the ascending NaN-free common values, every cell is the one the input stores at the first index holding that coordinate, an empty intersection exits with an error, swapping inputs swaps columns; plus all permutations of 3 dimension entries leave scores unchanged.",
+  text="Bounded model checking of Data._get_common_indices and the index selection in _get_score with *symbolic coordinates*: location ids, lead times (incl. NaN) and times of two inputs are arbitrary symbolic values in any order with duplicates (2+2, 2+1; thorough 3+3, 3+2); per path z3 proves the verified coordinates are the ascending NaN-free common values, every cell is the one the input stores at the first index holding that coordinate, an empty intersection exits with an error, swapping inputs swaps columns; plus all permutations of 3 dimension entries leave scores unchanged. A shared harness with two inputs storing different threshold columns proves that each reads its own column.",
   note="Trusted: symx models of sort/unique/intersect1d/isin (validated); calendar model for symbolic times. Outside: text-row keyed storage (C09), sizes above the bound.",
   ref="3 C02"),
  "C03": dict(
-  text="Bounded model checking of Data.__init__ subsetting: 2-3 stations with symbolic lat/lon/elev and every subset of {latrange, lonrange, elevrange, -l, -lx} with symbolic values; 3 symbolic init times around a year end with every subset of {-t, -d, -tod}; symbolic lead times with -o; -obsrange with symbolic end points. Oracle = the set-builder expression of the statement (inclusive bounds, -lx last, UTC calendar day, whole hours); empty selection => error exit or only NaN.",
+  text="Bounded model checking of Data.__init__ subsetting: 2-3 stations with symbolic lat/lon/elev and every subset of {latrange, lonrange, elevrange, -l, -lx} with symbolic values; 3 symbolic init times around a year end with every subset of {-t, -d, -tod}; symbolic lead times with -o; -obsrange with symbolic end points. Oracle = the set-builder expression of the statement (inclusive bounds, -lx last, UTC calendar day, whole hours); empty selection => error exit or only NaN. -obsrange is also decided together with -c/-C (the range applies to the observation, not to its anomaly).",
   note="Trusted: symx models incl. calendar model and the linear-search set shadow. The option->argument wiring of the driver is decided in C13. Outside: more stations/times than the bound; coordinates outside [-90,90]x[-180,180].",
   ref="3 C03"),
  "C04": dict(
-  text="Bounded model checking: Text._clean on a symbolic token (value, NaN, not-a-number flag); util.clean on a symbolic masked NetCDF variable (mask, NaN, -999, >1e30, +-inf per cell); and, through Data + Metric.compute for 9 metrics x 3-4 axes on 2 inputs with real/NaN/+inf cells, score == score of the same data with the missing cases deleted, all-missing slice => NaN, never an exception.",
+  text="Bounded model checking: Text._clean on a symbolic token (value, NaN, not-a-number flag); util.clean on a symbolic masked NetCDF variable (mask, NaN, -999, >1e30, +-inf per cell); and, through Data + Metric.compute for 9 metrics x 3-4 axes on 2 inputs with real/NaN/+inf cells, score == score of the same data with the missing cases deleted, all-missing slice => NaN, never an exception. An ensemble-derived probability with every member missing is missing (shared harness).",
   note="Trusted: symx models; the netCDF4 variable is a stub (values + mask). Probabilistic fields with missing values are decided in C08. Outside: on-disk fill values, sizes above the bound.",
   ref="3 C04"),
  "C11": dict(
-  text="Bounded model checking of every compute_from_times/compute_from_leadtimes in verif/axis.py on one symbolic instant (any second) inside day windows around year ends and leap days (thorough: every day 1970-2100, the day number concretised by solver-driven forking, the second of day symbolic), of the partition of valid cases by every axis through Data on symbolic init times around 2023-12-31, and of the date/unixtime/datenum round trips for symbolic dates.",
+  text="Bounded model checking of every compute_from_times/compute_from_leadtimes in verif/axis.py on one symbolic instant (any second) inside day windows around year ends and leap days (thorough: every day 1970-2100, the day number concretised by solver-driven forking, the second of day symbolic), of the partition of valid cases by every axis through Data on symbolic init times around 2023-12-31, and of the date/unixtime/datenum round trips for symbolic dates. Cyclic axes are also partitioned with three init times (non-contiguous buckets).",
   note="Trusted: the calendar model (86400 s days; civil fields of a concrete day from the real datetime; date2num = days since 1970-01-01). Outside: leap seconds, times before 1970 for unixtime routes, strftime labels.",
   ref="3 C11"),
  "C14": dict(
-  text="Bounded model checking of the climatology branch of Data.get_scores: 1-2 inputs + climatology (also with reordered/extra coverage), subtract and divide; per cell z3 proves obs/fcst anomalies use the climatology forecast at the same coordinates, other fields are untouched, a case is present only if defined and never a non-finite number, identical cases for all inputs, the climatology is not a scored input/legend entry; and mae/rmse/bias/stderror under -c equal those with the climatology as an extra input.",
+  text="Bounded model checking of the climatology branch of Data.get_scores: 1-2 inputs + climatology (also with reordered/extra coverage), subtract and divide; per cell z3 proves obs/fcst anomalies use the climatology forecast at the same coordinates, other fields are untouched, a case is present only if defined and never a non-finite number, identical cases for all inputs, the climatology is not a scored input/legend entry; and mae/rmse/bias/stderror under -c equal those with the climatology as an extra input. -c/-C together with -fcst FIELD / -obs FIELD removes the climatology from the designated fields.",
   note="Trusted: symx models. Outside: sizes above the bound; -c/-C parsing (C13).",
   ref="3 C14"),
  "C15": dict(
-  text="Bounded model checking of all 14 aggregator classes + quantile levels along every axis of vectors (1..3/4) and 2x2(x2) arrays against textbook statistics; preaggregate_leadtime/_time on 3-4 grid points with symbolic spacing and symbolic window against the trailing-window definition (l-h, l]; and -T through Data for obs, fcst, ensemble members and ensemble-derived threshold/quantile fields.",
+  text="Bounded model checking of all 14 aggregator classes + quantile levels along every axis of vectors (1..3/4) and 2x2(x2) arrays against textbook statistics; preaggregate_leadtime/_time on 3-4 grid points with symbolic spacing and symbolic window against the trailing-window definition (l-h, l]; and -T through Data for obs, fcst, ensemble members and ensemble-derived threshold/quantile fields. With two inputs on different grids both forecasts and observations are windowed on the grid of the input they are read from.",
   note="Trusted: symx NumPy models (mean/median/percentile/std/sort), validated against NumPy. Outside: float32 rounding of the window array, unsorted grids, arrays above the bound.",
   ref="3 C15"),
  "C18": dict(
@@ -51,7 +51,7 @@ CLAIMED = {
   note="Trusted: symx array model (views/aliasing are NumPy's own). Outside: longer histories, more cells.",
   ref="3 C18"),
  "C08": dict(
-  text="Bounded model checking: metric.get_p through Data (event probability = P(upper)-P(lower) from the stored CDF, or the fraction of present ensemble members when the threshold is not stored) for 8 bin types; the 7 Brier classes on 2-3 (probability, outcome) pairs with probabilities anywhere in [0,1] incl. bin edges (definitions, BS = REL-RES+UNC when one value per bin, BS(event) = BS(complement)); stored vs ensemble quantiles, pinball loss, coverage, spread, spread-skill ratio; bs/ign0/spherical/marginal ratio/threshold mean through Data; PIT mean, deviation, slope, shape.",
+  text="Bounded model checking: metric.get_p through Data (event probability = P(upper)-P(lower) from the stored CDF, or the fraction of present ensemble members when the threshold is not stored) for 8 bin types; the 7 Brier classes on 2-3 (probability, outcome) pairs with probabilities anywhere in [0,1] incl. bin edges (definitions, BS = REL-RES+UNC when one value per bin, BS(event) = BS(complement)); stored vs ensemble quantiles, pinball loss, coverage, spread, spread-skill ratio; bs/ign0/spherical/marginal ratio/threshold mean through Data; PIT mean, deviation, slope, shape. Shared harnesses: inputs storing different threshold columns, and probabilities derived from the valid ensemble members only.",
   note="Trusted: symx models (quantile normal_unbiased, fork-based histogram), log2 uninterpreted, norm.ppf evaluated by SciPy on concrete levels; the 10 bin edges are the doubles np.linspace produces. Outside: PIT randomisation (np.random), more cases than the bound.",
   ref="3 C08"),
  "C09": dict(
@@ -59,15 +59,15 @@ CLAIMED = {
   note="Trusted: builtin open() shadowed by an in-memory token file (the replay writes a real file and runs the real reader); calendar model for date columns. Outside: separators other than blanks, more rows than the bound.",
   ref="3 C09"),
  "C10": dict(
-  text="Partial. Bounded model checking of verif.input.Netcdf (every property getter, locations, variable metadata) over every subset of the 8 optional variable groups of a *stub* dataset with symbolic masked content: each attribute == clean(documented variable); get_input dispatch over all validity combinations; scripts/text2nc.main writes every array of the text input (symbolic) to the stub. With C09 this pins both readers to the same numbers.",
+  text="Partial. Bounded model checking of verif.input.Netcdf (every property getter, locations, variable metadata) over every subset of the 8 optional variable groups of a *stub* dataset with symbolic masked content: each attribute == clean(documented variable); get_input dispatch over all validity combinations; scripts/text2nc.main writes every array of the text input (symbolic) to the stub. With C09 this pins both readers to the same numbers. Variable metadata (name, units, x0, x1) for five combinations of the global attributes.",
   note="NOT decided: anything the NetCDF/HDF5 C library does (fill values on disk, float32 storage: 'exactly for float32-representable data'), 'detected from content' (is_valid_nc only tries to open the file), Comps files. netCDF4.Dataset is an in-memory stub in both the symbolic run and the replay.",
   ref="3 C10"),
  "C12": dict(
-  text="Partial. Bounded model checking of Standard._get_x_y, Output.text/csv and get_axis_descriptions on a real Data object with symbolic cells: placement (score of input f on slice i lands in row i, column f; threshold rows in the given order; mean over thresholds otherwise; -acc running sums; -leg labels; -f file instead of screen) is proven for every path; the printed characters are checked on one solver-chosen representative per path (the %g conversion needs a concrete number) to 6 / 4 significant digits, with the row descriptors.",
+  text="Partial. Bounded model checking of Standard._get_x_y, Output.text/csv and get_axis_descriptions on a real Data object with symbolic cells: placement (score of input f on slice i lands in row i, column f; threshold rows in the given order; mean over thresholds otherwise; -acc running sums; -leg labels; -f file instead of screen) is proven for every path; the printed characters are checked on one solver-chosen representative per path (the %g conversion needs a concrete number) to 6 / 4 significant digits, with the row descriptors. -x obs / -x fcst (one row per interval) and -x month/week/year with several init times in a period are included.",
   note="Trusted: symx models; print/open recorders. Formatting is decided for one representative model per path (realisation), said so in the evidence. Outside: terminal width, strftime of time labels beyond the real matplotlib on concrete times.",
   ref="3 C12"),
  "C13": dict(
-  text="Partial. Bounded model checking of the verif.driver.run argument loop with recorders at its boundary: 31 options x 3 positions each change exactly their documented slot (Data keyword / output attribute) with symbolic numeric values flowing through util.parse_numbers; --config == inline; util.parse_numbers/parse_dates on 6 vector shapes of symbolic decimal tokens against the comma/colon semantics (end point included, calendar-day stepping across month/year/leap boundaries); 21 malformed or out-of-range command lines are rejected with non-zero status.",
+  text="Partial. Bounded model checking of the verif.driver.run argument loop with recorders at its boundary: 31 options x 3 positions each change exactly their documented slot (Data keyword / output attribute) with symbolic numeric values flowing through util.parse_numbers; --config == inline; util.parse_numbers/parse_dates on 6 vector shapes of symbolic decimal tokens against the comma/colon semantics (end point included, calendar-day stepping across month/year/leap boundaries); 21 malformed or out-of-range command lines are rejected with non-zero status. Whole arguments as character-class vectors (<= 4 / 5 characters) are decided against the documented grammar, and the --list-* options against what is common to two overlapping inputs.",
   note="Trusted: get_input/Data/output actions are recording stubs here (their behaviour: C01-C12); arange/round models (validated). Outside: IEEE rounding of decimal grids, arbitrary-character argument strings (malformed syntax is decided on a fixed list of shapes), the effect of options on rendered plots (C17).",
   ref="3 C13"),
  "C16": dict(
@@ -75,15 +75,15 @@ CLAIMED = {
   note="NOT decided: the other 10 diagrams, maps, rank and impact views, and whether matplotlib draws what it is given. pyplot is a recording stub in both the symbolic run and the replay.",
   ref="3 C16"),
  "C17": dict(
-  text="Partial. Bounded model checking of the dataflow of 45 appearance options from argv through verif.driver.run, the output object's attributes and Output.plot/_adjust_axis/_legend/_save_plot/_get_plot_options/_add_annotation to the documented matplotlib call: the option's symbolic value arrives as the documented argument (set_rotation, grid(lw=), set_title(fontsize=), savefig(dpi=), set_size_inches, subplots_adjust, plot(color/ls/lw/marker/ms), legend(loc/prop), text(fontsize) ...); limits combined with ticks are applied in the order that keeps the limits; thorough: all ordered pairs of 9 options keep both effects.",
+  text="Partial. Bounded model checking of the dataflow of 45 appearance options from argv through verif.driver.run, the output object's attributes and Output.plot/_adjust_axis/_legend/_save_plot/_get_plot_options/_add_annotation to the documented matplotlib call: the option's symbolic value arrives as the documented argument (set_rotation, grid(lw=), set_title(fontsize=), savefig(dpi=), set_size_inches, subplots_adjust, plot(color/ls/lw/marker/ms), legend(loc/prop), text(fontsize) ...); limits combined with ticks are applied in the order that keeps the limits; thorough: all ordered pairs of 9 options keep both effects. The margin options are followed to the savefig call (no bbox_inches='tight' when a margin is given).",
   note="NOT decided: what matplotlib does with the call, the image format and pixel size. pyplot/Axes/Figure are recording stubs in both the symbolic run and the replay.",
   ref="3 C17"),
  "C19": dict(
-  text="Partial. Exploration through the engine of verif.driver.run -> real Data -> real metric -> Standard._get_x_y -> csv for every valid metric class (70) + 6 diagrams x 4 (thorough: all 19) -x dimensions x 3-6 bin-type/aggregator variants x dataset classes chosen by symbolic flags (a location and/or a time entirely missing, constant forecasts, zero observations, perfect forecast), of the text and csv writers x obs/fcst/threshold/leadtime axes x bin types x -r, of every diagram / output type up to a pyplot recording stub, of all 28 diagrams x 8 bin types x 1/2/4 thresholds and of all 28 diagrams x 19 -x dimensions x (default, -q, -agg median, -simple) on the ordinary dataset: every run returns or exits through verif.util.error with non-zero status; any other exception is replayed on the unmodified code and reported.",
+  text="Partial. Exploration through the engine of verif.driver.run -> real Data -> real metric -> Standard._get_x_y -> csv for every valid metric class (70) + 6 diagrams x 4 (thorough: all 19) -x dimensions x 3-6 bin-type/aggregator variants x dataset classes chosen by symbolic flags (a location and/or a time entirely missing, constant forecasts, zero observations, perfect forecast), of the text and csv writers x obs/fcst/threshold/leadtime axes x bin types x -r, of every diagram / output type up to a pyplot recording stub, of all 28 diagrams x 8 bin types x 1/2/4 thresholds and of all 28 diagrams x 19 -x dimensions x (default, -q, -agg median, -simple) on the ordinary dataset: every run returns or exits through verif.util.error with non-zero status; any other exception is replayed on the unmodified code and reported. Further: every metric/diagram x 4 dataset kinds (deterministic as text or NetCDF presents it, probabilistic, ensemble only) x 1 or 2 inputs x plot/rank/csv x (default, -q, -r); map types x 5 longitude conventions; field metrics with non-mean aggregators on -x obs/fcst.",
   note="This is the weakest claim: after the flags are decided the cells are concrete, so the solver only enumerates the feasible flag/option combinations (bounded configuration exploration, not value-level reasoning). NOT decided: output types that render (plot, map, rank, maprank, impact, mapimpact) and the diagrams' drawing code.",
   ref="3 C19"),
  "C20": dict(
-  text="Partial. Bounded model checking of scripts/accumulate.py (trailing sums for windows none/1..4 along lead time or time, incomplete windows missing, -i), scripts/ens2prob.py (cdf in [0,1] and non-decreasing in the threshold, quantiles non-decreasing in the level and within the ensemble range, PIT = fraction of members below the obs, missing where the obs is missing) and scripts/expandverif.py (each observation placed exactly where the valid time matches, symbolic init and lead times) run with the real argparse; times, lead times, location metadata and untouched fields are written unchanged.",
+  text="Partial. Bounded model checking of scripts/accumulate.py (trailing sums for windows none/1..4 along lead time or time, incomplete windows missing, -i), scripts/ens2prob.py (cdf in [0,1] and non-decreasing in the threshold, quantiles non-decreasing in the level and within the ensemble range, PIT = fraction of members below the obs, missing where the obs is missing) and scripts/expandverif.py (each observation placed exactly where the valid time matches, symbolic init and lead times) run with the real argparse; times, lead times, location metadata and untouched fields are written unchanged. ens2prob is run with the thresholds in increasing and in another order.",
   note="Trusted: get_input -> in-memory input, netCDF4 -> write recorder; scipy.signal.convolve(ones,'valid') and interp1d(kind='zero') are models under the engine (the replay uses SciPy). NOT decided: scripts/window.py, on-disk encoding.",
   ref="3 C20"),
 }
